@@ -75,11 +75,11 @@ TECHNIQUE = ("exhaustive enumeration of variable chains, bracketings and Combine
 
 def _dom(tier):
     if tier == "thorough":
-        return dict(pool=5, chain=5, profiles=(0, 1, 2, 3), nest=5, combine=4, comb_pool=5,
+        return dict(pool=5, chain=5, profiles=(0, 1, 2, 3), profiles_at={5: 3}, nest=5, combine=4, comb_pool=5,
                     cn_len=4, mixed=4, kw_chain=4,
-                    parts={1: 1, 2: 1, 3: 2, 4: 12, 5: 48}, nest_parts={2: 1, 3: 1, 4: 4, 5: 24},
+                    parts={1: 1, 2: 1, 3: 2, 4: 24, 5: 40}, nest_parts={2: 1, 3: 1, 4: 4, 5: 24},
                     comb_parts=24, cn_parts=4, mixed_parts=8)
-    return dict(pool=4, chain=4, profiles=(0, 1, 2), nest=4, combine=4, comb_pool=4,
+    return dict(pool=4, chain=4, profiles=(0, 1, 2), profiles_at={}, nest=4, combine=4, comb_pool=4,
                 cn_len=3, mixed=3, kw_chain=3,
                 parts={1: 1, 2: 1, 3: 2, 4: 8}, nest_parts={2: 1, 3: 1, 4: 4},
                 comb_parts=3, cn_parts=2, mixed_parts=2)
@@ -88,10 +88,10 @@ def _dom(tier):
 def describe(tier):
     d = _dom(tier)
     return ("pool of %d typed variables; chains of 1..%d distinct variables in every order x every "
-            "assignment of %d attribute profiles; all bracketings (any depth) of chains of 2..%d; Compose "
+            "assignment of %d attribute profiles (3 for chains of 5); all bracketings (any depth) of chains of 2..%d; Compose "
             "keywords (name / falsy name / new and overriding attributes) on chains of 1..%d; Combine of "
-            "1..%d distinct variables x 12 keyword combinations (and every profile assignment for two of "
-            "them); Combine of 1..%d items from {plain, repeated, Compose, Combine, typed Combine}; chains "
+            "1..%d distinct variables x 12 keyword combinations (thorough: also every profile assignment "
+            "with all three keywords); Combine of 1..%d items from {plain, repeated, Compose, Combine, typed Combine}; chains "
             "of 2..%d items over an alphabet with Compose and typed Combine items; 7 value forms; every "
             "case applied 3 times on each of the Sequence and the Compose side"
             % (d["pool"], d["chain"], len(d["profiles"]), d["nest"], d["kw_chain"], d["combine"],
@@ -115,7 +115,11 @@ for _name in (None, "cname", ""):
             if _range is not None:
                 _kw["range"] = _range
             COMBINE_KWS.append(_kw)
-COMBINE_KWS_PRODUCT = [{}, {"name": "cname", "type": "tc", "range": [[0, 1], [2, 3]]}]
+COMBINE_KWS_PRODUCT = [{"name": "cname", "type": "tc", "range": [[0, 1], [2, 3]]}]
+
+
+PRE_CLASS = {"bare": "none", "empty": "none", "plain": "none", "untyped-variable": "untyped",
+             "empty-variable": "untyped", "typed-variable": "typed", "composed-variable": "typed"}
 
 
 def _cyclic(i, profiles):
@@ -172,7 +176,7 @@ def _cn_alphabet(profiles):
         ["Compose", [v(0), v(1)], {}],
         ["Combine", [v(0), v(1)], {}],
         ["Combine", [v(1), v(2)], {"type": "tc", "name": ""}],
-        ["Compose", [v(2), v(0)], {"name": "cz", "latex_name": ""}],
+        ["Compose", [v(2), v(0)], {"latex_name": ""}],
     ]
 
 
@@ -185,7 +189,7 @@ def cases_of(p, tier):
     if kind == "chain":
         n, idx = p["n"], 0
         for perm in itertools.permutations(range(d["pool"]), n):
-            for prof in itertools.product(profiles, repeat=n):
+            for prof in itertools.product(profiles[:d["profiles_at"].get(n, len(profiles))], repeat=n):
                 idx += 1
                 if (idx - 1) % p["of"] != p["part"]:
                     continue
@@ -290,12 +294,29 @@ def build(spec, nodes, path):
     return var
 
 
+def canon(x):
+    """Canonical immutable form (tells list from tuple and bool from int); keys are strings."""
+    t = type(x)
+    if t is dict:
+        try:
+            return ("d", tuple(sorted([(k, canon(v)) for k, v in x.items()])))
+        except TypeError:
+            return freeze(x)
+    if t is list:
+        return ("l", tuple([canon(v) for v in x]))
+    if t is tuple:
+        return ("t", tuple([canon(v) for v in x]))
+    if x is None or t in (bool, int, str, float):
+        return (t.__name__, x)
+    return freeze(x)
+
+
 def snapshot(nodes):
     out = []
     for kind, path, var in nodes:
         d = vars(var)
-        out.append((kind, freeze(d.get("var_context")), id(d.get("getter")),
-                    tuple(id(v) for v in d.get("_vars", ()))))
+        out.append((kind, canon(d.get("var_context")), id(d.get("getter")),
+                    tuple([id(v) for v in d.get("_vars", ())])))
     return out
 
 
@@ -392,7 +413,7 @@ def judge(res, case):
     n_types = len(types)
     n_combine = max([len(s[1]) for s in items if s[0] == "Combine"] or [0])
     nontrivial = n_types >= 2 or n_combine >= 2
-    base = {"group": group, "pre": form}
+    base = {"group": group, "pre": PRE_CLASS[form]}
 
     sides = ["sequence", "compose"]
     flat_items = None
@@ -418,11 +439,11 @@ def judge(res, case):
             after1 = snapshot(s.nodes)
             stage = "apply-again"
             r2 = s.apply(M.value(form))
-            keep2 = copy.deepcopy(r2) if _wellformed(r2) else r2
             after2 = snapshot(s.nodes)
+            repeat_ok = _wellformed(r2) and M.same(r1, r2)
+            keep2 = None if repeat_ok else copy.deepcopy(r2)
             scribble(r1)
             scribble(r2)
-            after_scribble = snapshot(s.nodes)
             stage = "apply-after-result-mutated"
             r3 = s.apply(M.value(form))
             after3 = snapshot(s.nodes)
@@ -440,21 +461,20 @@ def judge(res, case):
         if not M.same(frame, frame0):
             res.violation(case, _short(frame), _short(frame0), dict(cause, law="context-frame"))
         # description
-        if True:
-            req = req_kw if side == "compose" else req_plain
-            probs = M.match(ctx["variable"], req)
-            seen = set()
-            for path, problem in probs:
-                r = M.role(path[0], types)
-                if (r, problem) in seen:
-                    continue
-                seen.add((r, problem))
-                res.violation(case, {"context.variable": _short(ctx["variable"]), "at": list(path)},
-                              {"context.variable contains": _short(M.plain(req))},
-                              dict(cause, law="description", what=r, problem=problem))
-            if not probs:
-                extra = M.match(ctx["variable"], req, exact=True)
-                res.count("description_exact" if not extra else "description_with_unlisted_keys")
+        req = req_kw if side == "compose" else req_plain
+        allp = M.match(ctx["variable"], req, exact=True)
+        probs = [q for q in allp if q[1] != "extra"]
+        seen = set()
+        for path, problem in probs:
+            r = M.role(path[0], types)
+            if (r, problem) in seen:
+                continue
+            seen.add((r, problem))
+            res.violation(case, {"context.variable": _short(ctx["variable"]), "at": list(path)},
+                          {"context.variable contains": _short(M.plain(req))},
+                          dict(cause, law="description", what=r, problem=problem))
+        if not probs:
+            res.count("description_exact" if not allp else "description_with_unlisted_keys")
         # variable unchanged
         if before != after1:
             res.violation(case, "changed: %s" % changed_kinds(before, after1), "no variable changes",
@@ -465,17 +485,16 @@ def judge(res, case):
                           dict(cause, law="variable-unchanged", after="second-application",
                                nodes=changed_kinds(after1, after2)))
         # repeat
-        if not _wellformed(keep2) or not M.same(keep1, keep2):
+        if not repeat_ok:
             din = _differs_in(keep1, keep2, types) if _wellformed(keep2) else "shape"
             res.violation(case, _short(keep2), _short(keep1),
                           dict(cause, law="repeat", differs_in=din))
         # repeat after the earlier results were modified in place
-        var_hit = after2 != after_scribble or after_scribble != after3
-        if var_hit or not _wellformed(r3) or not M.same(keep1, r3):
+        if after2 != after3 or not _wellformed(r3) or not M.same(keep1, r3):
             din = "shape" if not _wellformed(r3) else _differs_in(keep1, r3, types)
             res.violation(case, _short(r3), _short(keep1),
                           dict(cause, law="repeat-after-result-mutated", differs_in=din,
-                               variable_changed=changed_kinds(after2, after_scribble)),
+                               variable_changed=changed_kinds(after2, after3)),
                           note="the contexts returned by the first two applications were modified in "
                                "place before the third application")
     # differential laws
@@ -490,7 +509,7 @@ def judge(res, case):
                 res.violation(case, {side: _short(first[side])}, {"flat sequence": _short(first["flat"])},
                               dict(base, law="associativity", side=side,
                                    differs_in=_differs_in(first["flat"], first[side], types)))
-    outcome = freeze(first.get("sequence", first.get("compose")))
+    outcome = canon(first.get("sequence", first.get("compose")))
     res.case(nontrivial=nontrivial, outcome=outcome, key=json.dumps(case, sort_keys=True))
     res.count("cases_" + group)
     res.count("applications", 3 * len(sides))
